@@ -139,7 +139,7 @@ CHECKS = {
         "assumptions": COMMON_ASSUME,
     },
     "C09": {
-        "legs": legs_simple("props", "^TestC09$", 14, 16),
+        "legs": legs_with_mock("^TestC09$", 14, 16),
         "rule": "rapid: generated certificates (corpus, 0-3 DER edits, openers) whose issuer differs from the subject x a replacement signature BIT STRING of the same length "
                 "(random, all-zero, all-one, one bit flipped, another corpus certificate's signature of equal length, a fresh well-formed ECDSA-Sig-Value, reversed, a slice of the certificate's own tbsCertificate, one of its own extensions re-encoded (as is / explicit critical FALSE / TRUE / whole list), its own names, validity, serial or key). Oracle: "
                 "identical status and details for every lint, SelfSigned false on both. Non-trivial = signature bits actually differ and >=1 lint body executed; distinct by (DER, DER').",
